@@ -56,6 +56,11 @@ CHECKS = {
             "All histories of depth 3 (quick) / 4 + extended alphabet (thorough) over 15 operations (calls to 3 contracts from 4 accounts, momentum with and without the producer's auto-receive phase so inboxes grow, user receives in and out of order, repeated receive, receive by the wrong account, competing higher-plasma receives replacing pooled ones, a hand-generated contract receive for inbox entry #2 while #1 is pending, restart) from 2 base states. After every transition, at the confirmed ledger and the pool view: every send has at most one receiving block and it is made by the addressee; every contract's receive sequence equals a prefix of the queue recomputed from the confirmed chain (momentum order, content order, block before descendants).",
             "Live-network receiver-enforcement regime; reorganisation is exercised by C06's differential oracle rather than here.",
             "5/C04"),
+    "C09": ("model_checking",
+            "bounded exhaustive product enumeration of contract x method x argument/amount/token domains (and non-canonical encodings) in 5 spork regimes and 3 base states; every send the real node accepts is driven through the real receive generation, a follower and a probe call",
+            "Method tables by reflection over the 11 ABI definitions cross-checked with GetEmbeddedMethod in 5 spork regimes (76 of 77 ABI methods reachable; sends to methods absent from a regime are all refused at send time). For every method: product of per-type boundary domains for every argument x amounts x tokens x relevant senders (quick: 2 values per argument, capped per group, plus the full 'star' of single-value deviations from an accepted centre call; thorough: full domains, depth-2 chains) in base states genesis / entries (stake, fusion, delegation, deposits, sentinel, tokens, projects with phases, HTLCs, an initialised bridge with wrap/unwrap requests, liquidity stake) / matured (26 h later). Each accepted send is confirmed and Supervisor.GenerateAutoReceive is driven for the inbox head: no panic, no internal error; success, or a receive whose only descendant returns exactly (amount, token) to the sender with contract storage and balances unchanged; the receive is inserted, second-order inboxes drained, a probe call to the same contract is received within one producer step, and a follower replaying the momentums through InsertChain accepts them.",
+            "Time windows rescaled; per-group caps cut the product (every cut group is listed in the evidence notes); sender combinations beyond six actors not covered.",
+            "5/C09"),
     "C10": ("model_checking",
             "bounded-history explicit-state exploration per contract family on a real node with an independent ledger auditor (liabilities and entitlements recomputed from the ledger) evaluated after every transition",
             "Per family (stake; plasma fusions; sentinel collateral + QSR deposit; pillar QSR deposit) all histories of depth 3 (quick) / 4 (thorough) over 6-10 operations (deposits of two accounts and durations, withdrawal attempts by owner / stranger / beneficiary, with known and unknown ids, before and after maturity, repeated; reward collection; momentums as time) from 2 base states each (genesis; entries existing: one mature, one not), with lock periods shrunk to 2-3 momentums. After every transition, at the confirmed ledger and the pool view, an auditor replays each contract's receive blocks from the ledger alone and checks: ledger-derived liabilities == liabilities in contract storage <= contract balance (per contract and token); every payout matched by an entitlement (entitled party, not before the lock allows, not twice, exact amount and recipient); a matured withdrawal by the entitled party pays out.",
